@@ -939,7 +939,17 @@ func (env *Env) addrOf(e ast.Expr) Val {
 	if !ok {
 		userErr("address-of is only supported on field selections: &%s", exprString(e))
 	}
-	base := env.eval(sel.X)
+	var base Val
+	if inner, ok := sel.X.(*ast.SelectorExpr); ok {
+		// &x.a.f: when x.a is a struct value (an embedded or nested struct), go through its address
+		if tv := env.eval(sel.X); func() bool { _, isPtr := tv.T.Underlying().(*types.Pointer); return isPtr }() {
+			base = tv
+		} else {
+			base = env.addrOf(inner)
+		}
+	} else {
+		base = env.eval(sel.X)
+	}
 	obj, index, _ := types.LookupFieldOrMethod(base.T, true, env.pkg, sel.Sel.Name)
 	if _, isVar := obj.(*types.Var); !isVar {
 		if n := namedOf(base.T); n != nil && n.Obj().Pkg() != nil {
@@ -959,7 +969,12 @@ func (env *Env) addrOf(e ast.Expr) Val {
 		ft := st.Underlying().(*types.Struct).Field(fi).Type()
 		last := i == len(index)-1
 		if ptrIsThin(ft) {
-			cur = Val{T: types.NewPointer(ft), L: []string{env.fc.subRef(st, fi, cur.L[0])}}
+			r := env.fc.subRef(st, fi, cur.L[0])
+			// the same ground facts doFieldAddr states: owner and field id of the sub-object (two different fields of
+			// one object, or fields of different objects, have different addresses)
+			k := env.fc.eng.fieldID(st, fi)
+			env.fc.axiom(and(eq(app("sub_owner", r), cur.L[0]), eq(app("sub_fid", r), bvLit(uint64(k), 16))))
+			cur = Val{T: types.NewPointer(ft), L: []string{r}}
 			continue
 		}
 		if !last {
